@@ -7,6 +7,9 @@
 //       setmax <v> | setlimit <v>      Encoder.SetMaxDynamicTableSize / SetMaxDynamicTableSizeLimit
 //       wf <name> <value> <0|1>        Encoder.WriteField, then Decoder.Write of exactly those bytes
 //       end                            Decoder.Close (end of the header block)
+//       emit <0|1>                     Decoder.SetEmitEnabled
+//       cboff                          arm the emit callback: on the next emitted field it calls SetEmitEnabled(false)
+//                                      from inside the callback (as http2's Framer does for too large header lists)
 //       search <name> <value> <0|1>    Encoder.searchTable
 package main
 
@@ -201,11 +204,27 @@ func gen(r *vu.Rng, i int) []string {
 		g.setMax(v)
 		body = append(body, fmt.Sprintf("setmax %d", v))
 	}
+	// one case in three toggles emission: the callback switches it off in the middle of a block (cboff),
+	// SetEmitEnabled is called between fields, and it is mostly switched on again before the next block
+	toggles := r.Chance(1, 3)
 	for b := 0; b < nblocks; b++ {
 		if b > 0 || r.Chance(1, 4) {
 			body = append(body, genSizeOps(r, g)...)
 		}
+		if toggles && b > 0 && r.Chance(4, 5) {
+			body = append(body, "emit 1")
+		}
 		for k := r.Intn(7); k > 0; k-- {
+			if toggles {
+				switch r.Intn(8) {
+				case 0, 1:
+					body = append(body, "cboff")
+				case 2:
+					body = append(body, "emit 0")
+				case 3:
+					body = append(body, "emit 1")
+				}
+			}
 			body = append(body, genField(r, g, c))
 			if r.Chance(1, 10) {
 				body = append(body, "search"+strings.TrimPrefix(genField(r, g, c), "wf"))
@@ -309,6 +328,10 @@ type sys struct {
 	hypOK    bool // the decoder bound covers every limit in force so far (hypothesis of C01)
 	desync   bool // a (reported) failure happened: later mismatches are consequences
 	nfields  int  // fields written in the current block
+
+	cbOff     bool           // the callback is armed to disable emission at the next emitted field
+	shadow    *hpack.Decoder // fed the same bytes with emission always enabled: its table is the reference
+	shadowBad bool           // a decoder returned an error: tables are no longer compared
 	blockErr bool
 }
 
@@ -319,7 +342,21 @@ func (s *sys) encState() string {
 
 func (s *sys) decState() string {
 	size, maxSize, allowed, ents, ff := hpack.VerifC01DecState(s.dec)
-	return fmt.Sprintf("DT %d %d %d %s %d", size, maxSize, allowed, showEntries(ents), b01(ff))
+	return fmt.Sprintf("DT %d %d %d %s %d %d", size, maxSize, allowed, showEntries(ents), b01(ff), b01(s.dec.EmitEnabled()))
+}
+
+// checkShadow: the dynamic table must not depend on whether emission is enabled.
+func (s *sys) checkShadow(o *vu.Out, when string) {
+	if s.shadowBad {
+		return
+	}
+	size, maxSize, _, ents, _ := hpack.VerifC01DecState(s.dec)
+	size2, maxSize2, _, ents2, _ := hpack.VerifC01DecState(s.shadow)
+	if size != size2 || maxSize != maxSize2 || !sameEntries(ents, ents2) {
+		s.shadowBad = true
+		s.fail(o, false, "", fmt.Sprintf("%s: decoder table (size %d, %s) differs from the table of a decoder fed the same bytes with emission always enabled (size %d, %s)",
+			when, size, showEntries(ents), size2, showEntries(ents2)))
+	}
 }
 
 func sameEntries(a, b []hpack.HeaderField) bool {
@@ -382,8 +419,17 @@ func (s *sys) writeField(f hpack.HeaderField, o *vu.Out) string {
 	werr := s.enc.WriteField(f)
 	p := append([]byte(nil), s.buf.Bytes()...)
 	s.emits = nil
+	emitOn := s.dec.EmitEnabled()
 	_, derr := s.dec.Write(p)
 	em := s.emits
+	if _, serr := s.shadow.Write(p); serr != nil || derr != nil {
+		s.shadowBad = true
+	}
+	if emitOn {
+		o.Stat("emit:on")
+	} else {
+		o.Stat("emit:off")
+	}
 	s.nfields++
 	if derr != nil {
 		s.blockErr = true
@@ -434,9 +480,12 @@ func (s *sys) writeField(f hpack.HeaderField, o *vu.Out) string {
 		case derr != nil:
 			s.desync = true
 			s.fail(o, true, "", fmt.Sprintf("Decoder.Write(%x) of WriteField(%q,%q,sens=%v) failed: %v", p, f.Name, f.Value, f.Sensitive, derr))
-		case len(em) != 1 || em[0] != f:
+		case emitOn && (len(em) != 1 || em[0] != f):
 			s.desync = true
 			s.fail(o, true, "", fmt.Sprintf("round trip: wrote %q=%q sens=%v, decoder emitted %s", f.Name, f.Value, f.Sensitive, showEmits(em)))
+		case !emitOn && len(em) != 0:
+			s.desync = true
+			s.fail(o, true, "", fmt.Sprintf("emission disabled, but the decoder emitted %s", showEmits(em)))
 		case !isPrefix(encEnts1, decEnts1):
 			s.desync = true
 			s.fail(o, true, "", fmt.Sprintf("encoder table %s is not the newest part of the decoder table %s", showEntries(encEnts1), showEntries(decEnts1)))
@@ -455,13 +504,14 @@ func (s *sys) writeField(f hpack.HeaderField, o *vu.Out) string {
 			if len(decEnts1) > len(decEnts0) || !isPrefix(decEnts1, decEnts0) {
 				s.fail(o, false, "", fmt.Sprintf("sensitive field %q=%q changed the decoder table to %s", f.Name, f.Value, showEntries(decEnts1)))
 			}
-			if len(em) != 1 || !em[0].Sensitive {
+			if emitOn && (len(em) != 1 || !em[0].Sensitive) {
 				s.fail(o, false, "", fmt.Sprintf("sensitive field %q=%q decoded as %s", f.Name, f.Value, showEmits(em)))
 			}
 		}
 	} else if derr == nil && len(em) == 1 && em[0].Sensitive {
 		s.fail(o, false, "", fmt.Sprintf("non-sensitive field %q=%q decoded as sensitive", f.Name, f.Value))
 	}
+	s.checkShadow(o, fmt.Sprintf("after field %q=%q", f.Name, f.Value))
 	return res
 }
 
@@ -486,8 +536,16 @@ func execCase(ops []string, o *vu.Out) {
 			}
 			s = &sys{allowed: a, hypOK: a >= 4096}
 			s.enc = hpack.NewEncoder(&s.buf)
-			s.dec = hpack.NewDecoder(4096, func(f hpack.HeaderField) { s.emits = append(s.emits, f) })
+			s.dec = hpack.NewDecoder(4096, func(f hpack.HeaderField) {
+				s.emits = append(s.emits, f)
+				if s.cbOff {
+					s.cbOff = false
+					s.dec.SetEmitEnabled(false)
+				}
+			})
 			s.dec.SetAllowedMaxDynamicTableSize(uint32(a))
+			s.shadow = hpack.NewDecoder(4096, func(f hpack.HeaderField) {})
+			s.shadow.SetAllowedMaxDynamicTableSize(uint32(a))
 			o.Op(op, "ok")
 		case (t[0] == "setmax" || t[0] == "setlimit") && len(t) == 2:
 			v := vu.Atou64(t[1])
@@ -515,6 +573,14 @@ func execCase(ops []string, o *vu.Out) {
 			f := hpack.HeaderField{Name: string(vu.MustHex(t[1])), Value: string(vu.MustHex(t[2])), Sensitive: t[3] == "1"}
 			o.Stat("op:wf")
 			o.Op(op, vu.Catch(func() string { return s.writeField(f, o) }))
+		case t[0] == "emit" && len(t) == 2 && (t[1] == "0" || t[1] == "1"):
+			o.Stat("op:emit")
+			s.dec.SetEmitEnabled(t[1] == "1")
+			o.Op(op, "ok")
+		case t[0] == "cboff" && len(t) == 1:
+			o.Stat("op:cboff")
+			s.cbOff = true
+			o.Op(op, "ok")
 		case t[0] == "end" && len(t) == 1:
 			o.Stat("op:end")
 			o.Op(op, vu.Catch(func() string {
@@ -525,6 +591,10 @@ func execCase(ops []string, o *vu.Out) {
 				}
 				s.nfields = 0
 				s.blockErr = false
+				if s.shadow.Close() != nil || err != nil {
+					s.shadowBad = true
+				}
+				s.checkShadow(o, "after Close")
 				return errTag(err) + " " + s.decState()
 			}))
 		case t[0] == "search" && len(t) == 4 && (t[3] == "0" || t[3] == "1"):
